@@ -131,6 +131,12 @@ pub fn templates() -> Vec<String> {
         "[ 1 2 \"a\" |f0| ] >bitstr bitstr-not",
         "0x33 u8! emit 0xf 4 uint! emit output output-length",
         "|ff 00| |0f| bitstr-and |f| bitstr-or",
+        // run-time built bit-strings whose only holder is the data stack (uniquely owned unless the
+        // reverse log keeps a reference), mutated and re-opened so that their layout shows in `offset`
+        "|FF| 0xABCD 16 uint! open-bitstr 8 bits drop 8 bits close-bitstr bitstr-append open-bitstr offset remain",
+        "[ 1 2 3 ] >bitstr open-bitstr 1 bytes drop 1 bytes close-bitstr bitstr-not dup open-bitstr offset remain",
+        "[ 1 2 3 ] >bitstr open-bitstr 1 bytes close-bitstr |FF| swap bitstr-append dup open-bitstr offset remain",
+        "[ 1 2 3 ] >bitstr open-bitstr 4 bits drop 12 bits close-bitstr |F| bitstr-append dup open-bitstr offset 4 bits",
         // run-time failures at different depths (history ends at the failing step)
         "1 2 3 drop drop drop drop",
         ": k 0 get ; [ ] k",
